@@ -13,6 +13,7 @@ import (
 	"net/url"
 	"reflect"
 	"runtime/pprof"
+	"sync"
 	"sync/atomic"
 	"time"
 
@@ -424,12 +425,17 @@ func (c *client) provide(outs []interface{}) error {
 
 func (c *client) makeOutChan(ctx context.Context, ftyp reflect.Type, valOut int) (func() reflect.Value, makeChanSink) {
 	retVal := reflect.Zero(ftyp.Out(valOut))
+	// retVal is set by the connection's frame executor (chCtor) and read by the caller, which
+	// may already have been answered by closeInFlight at that point
+	var retValLk sync.Mutex
 
 	chCtor := func() (context.Context, func([]byte, bool)) {
 		// unpack chan type to make sure it's reflect.BothDir
 		ctyp := reflect.ChanOf(reflect.BothDir, ftyp.Out(valOut).Elem())
 		ch := reflect.MakeChan(ctyp, 0) // todo: buffer?
+		retValLk.Lock()
 		retVal = ch.Convert(ftyp.Out(valOut))
+		retValLk.Unlock()
 
 		incoming := make(chan reflect.Value, 32)
 
@@ -515,7 +521,11 @@ func (c *client) makeOutChan(ctx context.Context, ftyp reflect.Type, valOut int)
 		}
 	}
 
-	return func() reflect.Value { return retVal }, chCtor
+	return func() reflect.Value {
+		retValLk.Lock()
+		defer retValLk.Unlock()
+		return retVal
+	}, chCtor
 }
 
 func (c *client) sendRequest(ctx context.Context, req request, chCtor makeChanSink) (clientResponse, error) {
